@@ -2,4 +2,21 @@
 EXTENDS EvoSelect
 MCScores == {-1, 0, 2}
 MCScores2 == {-1, 1}
+
+(* Round 4 (coverage audit): repeated selection with re-evaluation in between, populations whose indices are sparse   *)
+(* and not in list order (sorted by fitness, merged from two runs), and generations handed on in reversed order.      *)
+MCIdxPool == {0, 1, 3}
+MCIdxPool2 == {0, 3}
+InitU == /\ \E m \in 1..MaxPop : \E f \in [1..m -> Hists] :
+              \E ix \in {g \in [1..m -> MCIdxPool] : \A a, b \in 1..m : a # b => g[a] # g[b]} :
+                 pop = [i \in 1..m |-> [idx |-> ix[i], fit |-> f[i]]]
+         /\ par \in [k : Ks, n : 1..MaxN, elitism : BOOLEAN, W : Ws]
+         /\ elite = [parent |-> 0, idx |-> 0] /\ prev = <<>> /\ lastsel = <<>> /\ gen = 0 /\ act = "init"
+MCReverse == /\ act = "eval" /\ Len(pop) > 1
+             /\ pop' = [j \in 1..Len(pop) |-> pop[Len(pop) + 1 - j]]
+             /\ UNCHANGED <<par, elite, prev, lastsel, gen>> /\ act' = "rev"
+NextU == MCSelect \/ (MaxGen > 1 /\ (MCEval \/ MCReverse))
+SpecU == InitU /\ [][NextU]_vars
+\* over the generations no index is ever handed out twice: a fresh index is larger than every index of the old population
+FreshAbove == act = "select" => \A j \in 1..Len(pop) : (par.elitism /\ j = 1) \/ \A i \in 1..Len(prev) : pop[j].idx > prev[i].idx
 ================================================================================
